@@ -15,7 +15,11 @@
 package toml
 
 import (
+	"fmt"
 	"io"
+	"maps"
+	"slices"
+	"strings"
 
 	"github.com/pelletier/go-toml/v2"
 
@@ -43,5 +47,35 @@ func (e *Encoder) Encode(val cue.Value) error {
 	if err := val.Decode(&v); err != nil {
 		return err
 	}
+	if err := checkNoNull(v, ""); err != nil {
+		return err
+	}
 	return e.encoder.Encode(v)
+}
+
+// checkNoNull reports an error if v contains a null value, which TOML cannot
+// represent; the underlying encoder would silently drop the field or fail
+// with an error that does not say where the value is.
+func checkNoNull(v any, path string) error {
+	switch v := v.(type) {
+	case nil:
+		if path == "" {
+			return fmt.Errorf("toml: cannot encode null value")
+		}
+		return fmt.Errorf("toml: cannot encode null value at %s", strings.TrimPrefix(path, "."))
+	case map[string]any:
+		// Sorted, so that the same field is reported on every run.
+		for _, k := range slices.Sorted(maps.Keys(v)) {
+			if err := checkNoNull(v[k], path+"."+k); err != nil {
+				return err
+			}
+		}
+	case []any:
+		for i, elem := range v {
+			if err := checkNoNull(elem, fmt.Sprintf("%s[%d]", path, i)); err != nil {
+				return err
+			}
+		}
+	}
+	return nil
 }
